@@ -166,30 +166,61 @@ def generate(rng, tier, index):
 
 
 def leaf_truncated(frame):
-    """True iff some primitive (non-structure) item declares more value
-    bytes than its enclosing structure holds, i.e. part of the data the
-    request announces is simply not there. (A structure whose own length
-    field is off while all of its children are complete is only slack; the
-    real decoder clamps it and nothing is missing.) Independent of kmip."""
+    """True iff some primitive (non-structure) item that a reader of the
+    message has to read declares more value bytes than its enclosing
+    structure holds, i.e. part of the data the request announces is simply
+    not there. Independent of kmip. Deliberately narrow (each clause was a
+    false alarm on the unchanged tree once):
+    * a structure whose own length field is off while all of its children
+      are complete is only slack - the real decoder clamps it;
+    * bytes that do not start a plausible item (tag 42xxxx/54xxxx, type
+      1..10) are slack too, not a declared value: the walk of that
+      structure stops there (e.g. the value bytes left behind when a
+      fixed-size item's length field was zeroed and the decoder read the
+      value anyway);
+    * batch items beyond the Batch Count of the header are never read."""
     import struct as _s
     buf = bytes(frame)
 
-    def walk(pos, end, depth):
+    def plausible(pos):
+        return buf[pos] in (0x42, 0x54) and 1 <= buf[pos + 3] <= 10
+
+    def walk(pos, end, depth, top=False):
+        count = None
+        seen_items = 0
         while end - pos >= 8 and depth < 80:
+            if not plausible(pos):
+                return False
+            tag = buf[pos:pos + 3]
             typ = buf[pos + 3]
             ln = _s.unpack_from('!I', buf, pos + 4)[0]
             vstart = pos + 8
+            if top and tag == b'\x42\x00\x0f':
+                seen_items += 1
+                if count is not None and seen_items > count:
+                    return False
             if typ == 1:
                 vend = min(vstart + ln, end)
                 if walk(vstart, vend, depth + 1):
                     return True
+                if top and tag == b'\x42\x00\x77':
+                    # Batch Count inside the request header
+                    q = vstart
+                    while vend - q >= 16:
+                        l2 = _s.unpack_from('!I', buf, q + 4)[0]
+                        if buf[q:q + 3] == b'\x42\x00\x0d' and l2 == 4:
+                            count = _s.unpack_from('!i', buf, q + 8)[0]
+                        q += 8 + l2 + ((8 - l2 % 8) % 8)
                 pos = vstart + ln + ((8 - ln % 8) % 8)
             else:
                 if vstart + ln > end:
                     return True
                 pos = vstart + ln + ((8 - ln % 8) % 8)
         return False
-    return walk(0, len(buf), 0)
+    if len(buf) < 8 or buf[3] != 1:
+        return False
+    ln0 = _s.unpack_from('!I', buf, 4)[0]
+    return walk(8, min(8 + ln0, len(buf)), 1, top=True)
 
 
 def decodable(frame):
